@@ -8,7 +8,10 @@ class_path, flat init args, dotted argv options in explicit and short spelling) 
 named class below the declared one (direct, via a concrete / abstract / private intermediate class, diamond); sibling
 class-typed positions with prefix-related names (parameters of a nested class / of a class group / separate
 top-level arguments, both declaration orders); whole lists / dicts of classes given again by a later source
-(every element position x relation to the class configured there; shrinking, growing, empty containers).
+(every element position x relation to the class configured there; shrinking, growing, empty containers);
+operation histories: the parse under test on a parser that was used before (earlier call through parse_env,
+defaults=False, parse_string and the ordinary channels), classes whose module is imported after an earlier parse
+(named by bare name and by path), container elements with dict_kwargs addressed again.
 
 Every case is judged by the reference model in c14_model.py (pure reflection on the fixtures, no jsonargparse):
 accept iff the model accepts; the parsed configuration, read back structurally (class_path re-imported by the
@@ -35,8 +38,9 @@ META = {
     "level_text": "Every combination of declared type, class token (subclasses, unrelated classes, abstract classes, "
     "factory functions, importable instances, modules, constants, unimportable paths), init-args mutation, notation "
     "and channel within the stated bounds - including classes that descend from the declared class through abstract "
-    "or private intermediate classes or along two lines, sibling class-typed positions with prefix-related names and "
-    "lists / dicts of classes given again by a later source - is executed on the real parser and compared with a reference model that "
+    "or private intermediate classes or along two lines, sibling class-typed positions with prefix-related names, "
+    "lists / dicts of classes given again by a later source, parsers that were used before and classes imported after "
+    "an earlier parse - is executed on the real parser and compared with a reference model that "
     "decides acceptance and the effective configuration by reflection on the fixture classes; accepted "
     "configurations are instantiated and a constructor log decides exact class, exactly-once construction, exact "
     "arguments and nested-first order. Nothing is sampled; the verdict is exhaustive within the bounds.",
@@ -53,6 +57,7 @@ META = {
 TYPE_NAMES = [
     "Base", "SubAdd", "Abs", "Other", "Kw", "OptBase", "UnionBO", "ListBase", "DictBase",
     "HoldOne", "HoldOpt", "HoldUnion", "HoldList", "HoldDict", "HoldDeep", "HoldPair", "HoldPairR",
+    "ListKw", "DictKw",
 ]  # fmt: skip
 
 
@@ -301,7 +306,11 @@ def first_difference(a, b, path=""):
 
 
 def token_of(obj):
-    for tok in M.CLASS_TOKENS + M.FUNC_TOKENS:
+    import sys
+
+    # the late module must never be imported as a side effect of looking a token up
+    late = M.LATE_TOKENS if M.FAM_LATE in sys.modules else []
+    for tok in M.CLASS_TOKENS + M.FUNC_TOKENS + late:
         if M.my_import(M.TOKENS[tok]) is obj:
             return tok
     return "?"
@@ -379,7 +388,7 @@ def check_built(eff, actual, log, problems, path="x"):
 
 
 def build_parser(case, J, default):
-    p = J.ArgumentParser(exit_on_error=False)
+    p = J.ArgumentParser(exit_on_error=False, env_prefix="C14")  # env_prefix: only names the variable of parse_env
     p.add_argument("--config", action="config")
     T = decl_type(case["t"])
     st = case.get("st", "arg")
@@ -476,9 +485,48 @@ def parse_once(case, J):
 
     default, method, arg = invocation(case)
     p, T = build_parser(case, J, copy.deepcopy(default))
+    before = ""
+    if case.get("pre"):
+        # operation history: an EARLIER call, on this parser object or on another parser built the same way; whatever
+        # it returns or raises is ignored - the parse under test must mean what it means on an unused parser
+        pre = case["pre"]
+        q = p if pre.get("on", "same") == "same" else build_parser(case, J, copy.deepcopy(default))[0]
+        pm, pargs, pkw = pre_invocation(pre)
+        outcome(lambda: getattr(q, pm)(*copy.deepcopy(pargs), **pkw))
+        before = f"after {pm}({', '.join([repr(a) for a in pargs] + [f'{k}={v}' for k, v in pkw.items()])}) on {'the same' if q is p else 'another'} parser"
+    if case.get("late"):
+        # the module of the class named below becomes available only now (a plugin imported after the first use)
+        import importlib
+
+        importlib.import_module(M.FAM_LATE)
+        before += f", then import {M.FAM_LATE}"
     o = outcome(getattr(p, method), copy.deepcopy(arg))
-    shown = f"{method}({arg!r})" + ("" if default == _NONE else f" with default={default!r}")
+    shown = f"{method}({arg!r})" + ("" if default == _NONE else f" with default={default!r}") + (f" [{before.strip(', ')}]" if before else "")
     return p, T, o, shown
+
+
+def pre_invocation(pre):
+    """The earlier call of a history.  how: env (parse_env), obj0 / args0 (parse_object / parse_args with
+    defaults=False), str (parse_string) - the channels in which the value is judged before the configuration has an
+    entry for the argument - and obj / json / dot (the ordinary ones).  -> (method name, args, kwargs)."""
+    how, form, spec = pre["how"], pre["form"], pre["spec"]
+    if how == "dot":
+        return "parse_args", [render_dot("x", spec, form)], {}
+    v = render_json(spec, form)
+    text = v if isinstance(v, str) else json.dumps(v)
+    if how == "env":
+        return "parse_env", [{"C14_X": text}], {}
+    if how == "obj0":
+        return "parse_object", [{"x": v}], {"defaults": False}
+    if how == "args0":
+        return "parse_args", [["--x=" + text]], {"defaults": False}
+    if how == "str":
+        return "parse_string", [json.dumps({"x": v})], {}
+    if how == "obj":
+        return "parse_object", [{"x": v}], {}
+    if how == "json":
+        return "parse_args", [["--x=" + text]], {}
+    raise AssertionError(how)
 
 
 def read_config(o, case, T, J):
@@ -642,6 +690,17 @@ def check_instances(p, cfg, eff, shown, devs, stat, top=False):
 
 def evaluate(case):
     """-> (deviations [(signature, detail)], stats dict)."""
+    devs, stats = _evaluate(case)
+    if devs and case.get("pre") and not case.get("late"):
+        # the parse ran on a used parser: if the same history on an unused parser is judged fine, the root cause is
+        # that the earlier call left something behind - one signature per kind of symptom, whatever the type / notation
+        plain = {k: v for k, v in case.items() if k != "pre"}
+        if not _evaluate(plain)[0]:
+            devs = [(f"used-parser-differs:{sig.split(':', 1)[0]}", f"{d}; the same on an unused parser is as the model says") for sig, d in devs]
+    return devs, stats
+
+
+def _evaluate(case):
     import jsonargparse as J
 
     M.ensure_loaded()
@@ -710,6 +769,10 @@ def evaluate(case):
         devs.append((f"reject-valid:form-{last_form}:{kind}{multi}", f"{shown} rejected: {o['message'][:300]}; model expects {M.describe(exp)}"))
         return devs, stats
     stat("accepted")
+    if case.get("pre"):
+        stat("used_parser_accepted" if case["pre"].get("on", "same") == "same" else "used_library_accepted")
+    if case.get("late"):
+        stat("late_class_accepted")
     if case.get("st") == "top":
         stat("toplevel_accepted")
     for k in ("kept", "dropped", "class_change", "regiven"):
@@ -724,6 +787,12 @@ def evaluate(case):
     diff = first_difference(want_d, got_d)
     if diff:
         aspect, where, w, g = diff
+        if aspect == "dict_kwargs" and trace.get("elem_prev_dk") and not multi and isinstance(w, dict) and not g:
+            # one root cause of its own: a container element that carries dict_kwargs is addressed again by a later
+            # source (same class) and comes out without any - whatever the container and the notation (a result that
+            # has SOME dict_kwargs but not the model's is reported by the general signature below)
+            devs.append(("config-differs:dict_kwargs-of-container-element-lost", f"{shown}: at x.{where} model {w!r}, parsed {g!r}; parsed config {_show(cfg, J)}"))
+            return devs, stats
         devs.append((f"config-differs:{aspect}:{kind}{multi}", f"{shown}: at x.{where} model {w!r}, parsed {g!r}; parsed config {_show(cfg, J)}"))
         return devs, stats
     if want_d is not None and not (isinstance(want_d, dict) and "instance" in want_d):
@@ -734,7 +803,7 @@ def evaluate(case):
 
 def type_kind(case):
     t = case["t"]
-    kind = {"OptBase": "optional", "UnionBO": "union", "ListBase": "list", "DictBase": "dict"}.get(t, "holder" if t.startswith("Hold") else "single")
+    kind = {"OptBase": "optional", "UnionBO": "union", "ListBase": "list", "DictBase": "dict", "ListKw": "list", "DictKw": "dict"}.get(t, "holder" if t.startswith("Hold") else "single")
     return kind + {"grp": "-group", "top": "-toplevel"}.get(case.get("st"), "")
 
 
@@ -784,6 +853,8 @@ def _chunks(it, n):
 def _renderable(case):
     try:
         invocation(case)
+        if case.get("pre"):
+            pre_invocation(case["pre"])
         return True
     except AssertionError:
         return False
@@ -854,6 +925,9 @@ def explore(ctx):
             "regiven_containers": "List/Dict of 0-3 elements given again: elements x {own, shared, foreign init arg without class_path, same class, other class}"
             + (" (3 elements: single-position mutations + uniform; first containers: rotations)" if quick else " (full product, all permutations)")
             + ", shrunk / grown / from empty / to empty, --x.<key>=<json>, --x.<param>=v on the last element",
+            "used_parser": "an earlier call on the same parser object (result ignored) giving another class / the same class / init args only / an invalid class / null, via parse_env, parse_object and parse_args with defaults=False, parse_string, parse_object, --x=<json>, dotted options; then a history of default + 0-1 sources",
+            "late_classes": "module mc.fixtures.c14.late imported between an earlier parse (same / another parser; class named by bare name / by path) and the parse under test, its classes (direct, via concrete, via abstract, below an abstract root) named by bare name and by path; also nested, as list / dict element, add_subclass_arguments, after a class change",
+            "element_dict_kwargs": "List[Kw] / Dict[str,Kw] elements with dict_kwargs addressed again: last-element options, single-key sources, whole container again (class-less / same class, with / without own dict_kwargs)",
             "value_alphabet": {"valid": S.VALID, "invalid": S.INVALID},
         },
         model_reject_reasons=rejected_reasons,
@@ -876,6 +950,10 @@ def explore(ctx):
     ctx.require(totals.get("regiven", 0) >= 300, ">= 300 accepted histories in which a whole list / dict of classes is given again")
     ctx.require(totals.get("toplevel_accepted", 0) >= 60, ">= 60 accepted cases with sibling class-typed top-level arguments")
     ctx.require(totals.get("siblings/instantiated", 0) >= 200 and totals.get("recontainer/instantiated", 0) >= 200, "siblings and recontainer families: >= 200 instantiated configurations each")
+    ctx.require(totals.get("used_parser_accepted", 0) >= 300, ">= 300 accepted parses on a parser that was used before")
+    ctx.require(totals.get("used_library_accepted", 0) >= 50, ">= 50 accepted parses after an earlier parse on another parser")
+    ctx.require(totals.get("late_class_accepted", 0) >= 150, ">= 150 accepted parses naming a class of a module imported after an earlier parse")
+    ctx.require(totals.get("elem_kwargs/instantiated", 0) >= 50, "elem_kwargs family: >= 50 instantiated configurations")
     for lab in ("direct", "via-concrete", "via-abstract", "via-private", "diamond"):
         ctx.require(totals.get("name_only_valid:" + lab, 0) >= 10, f">= 10 valid histories name a class by its bare name that descends from the declared class {lab}")
     for reason in ("wrong-class", "callable-return-not-subclass", "not-a-class:module", "not-a-class:object", "not-importable",
